@@ -177,6 +177,39 @@ def check_dispatch_lists(rep, prog, m):
                 rep.ob('R-IDX', '%s -> %s' % (fq, _last(dotted(c.func))), ok, ast.unparse(c)[:120], rel, c.lineno, what='first D-1 proportions in order, D+1 grids, new labels')
 
 
+def check_root_equilibrium(rep, prog, m):
+    """the ancestral deme starts at equilibrium at ITS size relative to the reference size: with an explicit Ne (or any
+    reference other than the root size) nu = N_root/Ne is not 1, and phi_1D's default nu=1 would be a different population"""
+    fn = prog.func(DM, '_compute_sfs')
+    calls = [c for c in own_nodes(fn) if isinstance(c, ast.Call) and (dotted(c.func) or '').endswith('PhiManip.phi_1D')]
+    ok = False
+    det = 'no call of PhiManip.phi_1D in _compute_sfs'
+    if len(calls) == 1:
+        callee = prog.func('dadi.PhiManip', 'phi_1D')
+        b, problems = bind_call(callee, calls[0])
+        nu = b.get('nu')
+        det = 'call %s' % ast.unparse(calls[0])[:120]
+        if nu is None:
+            det += ' omits nu (default 1.0)'
+        else:
+            sing = single_assignments(fn)
+            deps = names_in(inline(nu, sing))
+            # through conditional re-bindings (if callable(x): x = x(0)) the name may not be a single assignment: follow plain assignments
+            for n in own_nodes(fn):
+                if isinstance(n, ast.Assign) and isinstance(n.targets[0], ast.Name) and n.targets[0].id in deps:
+                    deps |= names_in(n.value)
+            ok = 'nu_funcs' in deps and b.get('theta0') is not None and ast.unparse(b['theta0']) == 'theta' and not problems
+            det += '; nu depends on %s' % sorted(deps & {'nu_funcs', 'Ne', 'theta'})
+    rep.ob('R-ARGS', '_compute_sfs root equilibrium', ok, det, m.rel, calls[0].lineno if calls else fn.lineno,
+           what='the initial density is phi_1D(nu = size of the root deme relative to the reference size, theta0 = theta)')
+
+    # the first entry of nu_funcs is the root deme's relative size: sizes / Ne in _make_nu_func
+    mk = prog.func(DM, '_make_nu_func')
+    t = ast.unparse(mk)
+    okm = 'nu_func = [s[0] / Ne for s in sizes]' in t
+    rep.ob('R-ALG', '_make_nu_func constant sizes', okm, 'constant epochs: nu = N/Ne', m.rel, mk.lineno, what='relative sizes are N/Ne')
+
+
 def check_units(rep, prog, m):
     rel = m.rel
     gp = prog.func(DM, '_get_integration_parameters')
@@ -706,6 +739,7 @@ def run(rep, prog, tier):
     check_dispatch_lists(rep, prog, m)
     check_units(rep, prog, m)
     check_size_at(rep, prog)
+    check_root_equilibrium(rep, prog, m)
     check_event_writers(rep, prog)
     check_reorder(rep, prog, m)
     check_output_names(rep, prog)
